@@ -83,7 +83,7 @@ def loops_file(u, wd, gb):
                 local.setdefault(base, []).append(sy)
         lst = []
         for s in specs:
-            e = {"loop_id": str(s["loop_id"])}
+            e = {"loop_id": str(s.get("contract_loop_id", s["loop_id"]))}  # id after pre-unwinding, if different
             for k in ("assigns", "invariants", "decreases", "symbol_map"):
                 if k in s:
                     e[k] = s[k]
@@ -196,11 +196,19 @@ def build_unit(u, wd):
         if rc != 0:
             return None, "restrict-function-pointer failed: " + (out + err)[-400:]
         cur = nxt
+    if u.loops and not u.no_dfcc:
+        why = check_loop_shape(u, cur, wd)
+        if why:
+            return None, why
+    if u.pre_unwind:
+        # constant-bound inner loops nested in a loop under contract must be unwound first (complete: unwinding assertions on)
+        nxt = wd / (u.name + ".uw.gb")
+        cmd = ["goto-instrument", "--unwindset", ",".join("%s:%d" % (l, n) for l, n in u.pre_unwind), "--unwinding-assertions", str(cur), str(nxt)]
+        rc, out, err, t = run(cmd, 300, 8)
+        if rc != 0:
+            return None, "pre-unwind failed: " + (out + err)[-400:].replace("\n", " | ")
+        cur = nxt
     if not u.no_dfcc and (u.enforce or u.replace or u.loops):
-        if u.loops:
-            why = check_loop_shape(u, cur, wd)
-            if why:
-                return None, why
         nxt = wd / (u.name + ".dfcc.gb")
         cmd = ["goto-instrument", "--dfcc", u.entry]
         for e in (u.enforce or []):
